@@ -183,6 +183,42 @@ static void random_histories(const char *mode, uint64_t ncases, size_t maxn, uns
 	}
 }
 
+// ------------------------------------------------------------------ a class-type point (copies are copies, moves leave the source changed)
+struct ClassPoint {
+	long long v;
+	ClassPoint(long long x = 0) : v(x) {}
+	ClassPoint(const ClassPoint &) = default;
+	ClassPoint &operator=(const ClassPoint &) = default;
+	ClassPoint(ClassPoint &&o) : v(o.v) { o.v = -(1ll << 40); }                       // like a string or a bignum: the source is emptied
+	ClassPoint &operator=(ClassPoint &&o) { v = o.v; if(&o != this) o.v = -(1ll << 40); return *this; }
+	explicit operator long long() const { return v; }
+	bool operator<(const ClassPoint &o) const { return v < o.v; }
+	bool operator<=(const ClassPoint &o) const { return v <= o.v; }
+	bool operator>(const ClassPoint &o) const { return v > o.v; }
+	bool operator>=(const ClassPoint &o) const { return v >= o.v; }
+	bool operator==(const ClassPoint &o) const { return v == o.v; }
+};
+static void class_point_battery() {
+	if(!want_mode("class-point")) return;
+	using P = ClassPoint;
+	Rng r(derive_seed("class-point"));
+	for(uint64_t c = opt.shard; c < scaled(300, 6000); c += opt.nshards) {
+		begin_case("class-point", c);
+		g_bad = false; g_trace.clear();
+		size_t N = 1 + r.below(12);
+		std::vector<INode<P>> pool(N);
+		guarded("C07", [&] {
+			ITree<P> tree; std::vector<INode<P> *> live;
+			for(size_t i = 0; i < N; i++) { long long a = (long long)r.below(16) - 5, b = a + (long long)r.below(6); if(r.chance(1, 6)) b = a; pool[i].lo = P(a); pool[i].hi = P(b); pool[i].id = (int)i; g_trace += strf("ins[%lld,%lld]#%zu ", a, b, i); tree.insert(&pool[i]); live.push_back(&pool[i]); }
+			all_queries<P>(tree, live, -7, 13);
+			for(size_t i = 0; i < N && !g_bad; i += 2) { g_trace += strf("rem#%zu ", i); tree.remove(&pool[i]); live.erase(std::find(live.begin(), live.end(), &pool[i])); }
+			all_queries<P>(tree, live, -7, 13);
+			for(auto *n : live) tree.remove(n);
+		});
+		note_distinct(mix(hash_str("class-point"), c)); count("class_point_histories");
+	}
+}
+
 int main(int argc, char **argv) {
 	parse_args(argc, argv, "c07_interval");
 	rec.rule = "a case is one insert/remove history over closed intervals; after the operations the set of nodes passed to the for_overlaps callback is compared (as a multiset, each exactly once) "
@@ -201,6 +237,7 @@ int main(int argc, char **argv) {
 	random_histories<int64_t>("rand:i64-negative", scaled(60, 1500), 200, 300, 200, true);
 	random_histories<double>("rand:double-negative", scaled(60, 1500), 200, 300, 200, true); // point types are a template parameter: floating point too
 	random_histories<double>("rand:double", scaled(30, 800), 200, 300, 200);
+	class_point_battery();
 	random_histories<short>("rand:short-negative", scaled(30, 800), 60, 200, 150, true);
 	random_histories<uint64_t>("rand:u64", scaled(120, 3000), 200, 300, 200);
 	random_histories<int>("rand:int-large", scaled(4, 100), t ? 5000 : 1500, t ? 12000 : 3000, t ? 5000 : 600);
